@@ -76,6 +76,7 @@ LEAN = {
     "witness2": "Contracts.Witness2",
     "relabeltotal": "Contracts.RelabelTotal",
     "readerpost": "Contracts.ReaderPost",
+    "c10full": "Contracts.C10Full",
 }
 
 PROPS = {
@@ -90,7 +91,7 @@ PROPS = {
     "C07": dict(functions=V3000, lean=["reader", "v30line", "v3000", "bonds", "c07star", "c07starbonds"], diff=["io"], bounded=[("c07", None)]),
     "C08": dict(functions=V2000 + V3000 + CANON + SERIAL, lean=["final", "v2000", "reader", "v2000file", "bonds", "fileiso"], diff=["io"], bounded=[("c08", None)]),
     "C09": dict(probes=["v5"], functions=WRITER + V3000 + PARSER + CANON + SERIAL, lean=["final", "writer", "v30line", "writerext", "bonds"], diff=["io"], bounded=[("c09", None)]),
-    "C10": dict(functions=PARSER, lean=["parser"], diff=["parser"], bounded=[("c10", None)]),
+    "C10": dict(functions=PARSER, lean=["parser", "c10full"], diff=["parser"], bounded=[("c10", None)]),
     "C11": dict(probes=["v3"], functions=PARSER + CANON + SERIAL, lean=["final", "roundtrip", "parser", "canonicalize", "layout", "finallabels", "c11ext"], diff=["parser", "pipeline"], bounded=[("c11", None)]),
     "C12": dict(functions=CANON + SERIAL, lean=["canonicalize", "relabel", "finallabels"], diff=["pipeline"], bounded=[("pipeline", "c12")]),
     "C13": dict(probes=[], functions=CANON, lean=["canonicalize", "partition", "c11ext"], diff=["pipeline"], bounded=[("pipeline", "c13")]),
@@ -121,8 +122,8 @@ TOP = {
                 note="an abstract molecule (<= 999 atoms) rendered as V2000 with any choice of charge code vs M CHG/M RAD lines (supersession rule), grouping of 1-8 entries per line, unrelated property lines, atom lists, D/T with or without M ISO is read as exactly that molecule: element, charge, radical, mass, adjacency, bond types (V2000File.read_v2000_render); its V3000 rendering is read with the same values and both get the same TUCAN string (read_v2000_eq_v3000). Coordinates are not compared across the two formats (float() opaque)"),
     "C09": dict(level="proof", theorems=["Contracts.Writer.C09", "Contracts.Final.C09_tucan", "Contracts.Final.C09_string", "Contracts.Writer.C09_line_length", "Contracts.Writer.C09_splice", "Contracts.Writer.C09_atom_roundtrip", "Contracts.WriterExt.C09_coords", "Contracts.WriterExt.C09_tucan'", "Contracts.WriterExt.C09_string'", "Contracts.WriterExt.written_wellformed", "Contracts.WriterExt.written_wellformed_parsed", "Contracts.Bonds.C09_tucan_bonds", "Contracts.Bonds.C09_string_bonds"],
                 note="written file satisfies a format-level well-formedness predicate written from the CTfile rules (WriterExt.written_wellformed) incl. <= 80 characters per line; reading back gives the same atoms in order with element, charge, radical, mass, bond types on the graph (Bonds.C09_tucan_bonds) and coordinates equal to six decimals (WriterExt.C09_coords) under FloatLawful = float law V5 as a Lean hypothesis (satisfiable; probed on CPython); string round trip with hypotheses on the string only (C09_string'). Radicals 1..3 and labels >= 0 as in the quantifier"),
-    "C10": dict(level="other", theorems=["Contracts.Parser.graph_from_tree_ok", "Contracts.Parser.graph_from_tree_error_is_TPE", "Contracts.Parser.int_total"],
-                note="semantic half proved; the recogniser half (ANTLR accepts exactly tucan.g4) cannot be proved here and is bounded (assumption V4)"),
+    "C10": dict(level="other", theorems=["Contracts.Parser.graph_from_tree_ok", "Contracts.Parser.graph_from_tree_error_is_TPE", "Contracts.Parser.int_total", "Contracts.C10Full.grammar_iff_ast", "Contracts.C10Full.C10_iff", "Contracts.C10Full.C10_accept", "Contracts.C10Full.C10_reject", "Contracts.C10Full.C10_total"],
+                note="the whole statement of C10 is a theorem under the two-sided recogniser assumption V4full (ANTLR returns the grammar's tree on sentences and nothing on non-sentences; shown consistent): accepted iff sentence of the character-level grammar (= tucan.ebnf, compared with the file every run) with valid indices, no self-bond, no duplicate attribute (C10Full.C10_iff); the accepted graph is the denoted molecule (C10_accept); every other string is rejected with TucanParserException (C10_reject, C10_total), for all strings without a numeral of more than 4300 digits (the known finding). The recogniser itself (ANTLR runtime and generated parser) cannot be proved here: that half is the assumption, probed by the bounded differential against an EBNF-derived reader - hence level other"),
     "C11": dict(level="proof", theorems=["Contracts.Final.C11_norm", "Contracts.Final.C11_norm_text", "Contracts.Final.C11_idem_text", "Contracts.RoundTrip.C11_main", "Contracts.C11Ext.C11_renumber", "Contracts.C11Ext.C11_renumber_text", "Contracts.C11Ext.C11_norm_ok", "Contracts.C11Ext.C11_norm_text_ok", "Contracts.C11Ext.C11_domain"],
                 note="any finite chain of respellings (reorder/swap/repeat tuples, reorder/split attribute blocks, renumbering inside an element block: C11Ext.Spelling) normalises to one common string with .ok conclusions; idempotence; exact domain (C11_domain): norm returns iff the formula has an atom - the accepted sentences '/' and '//' raise ValueError, known finding D10. String level under assumption V4"),
     "C12": dict(level="proof", theorems=["Contracts.Canonicalize.C12_main", "Contracts.FinalLabels.serialize_molecule_frame_eq", "Contracts.FinalLabels.serialize_molecule_repeat"],
@@ -160,5 +161,6 @@ WITNESSES["C08"] += [(_W2, _W2 + ".read_v2000_render_witness"), (_W2, _W2 + ".re
 WITNESSES["C09"].append((_W2, _W2 + ".C09_tucan'_witness"))
 WITNESSES["C11"].append((_W2, _W2 + ".C11_renumber_witness"))
 WITNESSES["C13"].append((_W2, _W2 + ".C13_attrs_witness"))
+WITNESSES["C10"] = [("Contracts.C10Full", "Contracts.C10Full.C10_witness"), ("Contracts.C10Full", "Contracts.C10Full.V4full_satisfiable")]
 WITNESSES["C16"] += [("Contracts.RelabelTotal", "Contracts.RelabelTotal.Witness.C16_total_witness"), ("Contracts.RelabelTotal", "Contracts.RelabelTotal.Witness.returns_witness"),
                      ("Contracts.RelabelTotal", "Contracts.RelabelTotal.Witness.diverges_witness")]
